@@ -198,6 +198,7 @@ class _Prefixed:
         self._rep = rep
         self._prefix = prefix
         self._only = only
+        self.analysed = rep.analysed
 
     def ob(self, rule, fn, desc, ok, detail="", loc=None):
         if self._only and rule not in self._only:
